@@ -369,7 +369,9 @@ SIMD = fcfg(add=["portable-simd"])
 
 def tyn(s):
     """type spelling independent of std / alloc / core (no_std configurations print alloc:: paths)"""
-    return _re.sub(r"\b(std|alloc|core)::", "S::", s or "")
+    s = _re.sub(r"\b(std|alloc|core)::", "S::", s or "")
+    # the default allocator parameter is spelled out in no_std configurations
+    return _re.sub(r", S::S::Global>", ">", s)
 
 
 def _operand_locals(x, out):
@@ -479,3 +481,47 @@ def closure_keys(w, fn):
     crate = fn.split("::")[0]
     owners = [fn] + [h for h, done in getattr(w, "inlined", {}).items() if done and h.split("::")[0] == crate]
     return [k for k in w.bodies if "#promoted" not in k and any(k.startswith(o + "::{closure") for o in owners)]
+
+
+def field_writers(w, adt, fields, crate="vaporetto"):
+    """{field: {fn: count}}: the functions (closures under their own name) that take a mutable borrow of the field, assign to (a
+    projection of) it, write a call result into it, or move it out"""
+    out = {f: {} for f in fields}
+
+    def hit(pl):
+        for e in pl["proj"]:
+            if isinstance(e, dict) and e.get("of") == adt and e.get("field") in out:
+                return e["field"]
+        return None
+    for bd in w.all_bodies(crate):
+        if bd.promoted is not None:
+            continue
+        for blk in bd.blocks:
+            if blk["cleanup"]:
+                continue
+            for s in blk["stmts"]:
+                if s["k"] != "assign":
+                    continue
+                f = hit(s["place"])
+                if f:
+                    out[f][bd.fn] = out[f].get(bd.fn, 0) + 1
+                rv = s["rv"]
+                if rv["k"] in ("ref", "rawptr") and rv.get("mut"):
+                    f = hit(rv["place"])
+                    if f:
+                        out[f][bd.fn] = out[f].get(bd.fn, 0) + 1
+                if rv["k"] == "use" and "move" in rv["a"]:
+                    f = hit(rv["a"]["move"])
+                    if f:
+                        out[f][bd.fn] = out[f].get(bd.fn, 0) + 1
+            t = blk["term"]
+            if t and t["k"] == "call":
+                f = hit(t["dest"])
+                if f:
+                    out[f][bd.fn] = out[f].get(bd.fn, 0) + 1
+                for a in t["args"]:
+                    if "move" in a:
+                        f = hit(a["move"])
+                        if f:
+                            out[f][bd.fn] = out[f].get(bd.fn, 0) + 1
+    return out
